@@ -623,6 +623,32 @@ def rule_r5(prog, res) -> None:
                 res.ok("C01.R5", res.site(worker, unparse(x.targets[0])), "counts of all scales stored in the column of this bin")
             else:
                 res.violation("C01.R5", worker, x, "pair counts are stored along the wrong axis (scales x bins)", key_extra="counts-axis")
+    # every bin is recorded: each of the per-bin output arrays of the worker is stored into on every path through
+    # the loop body (a bin that is skipped keeps whatever np.empty / np.zeros left there for the other catalog too)
+    from ..cfg import cfg_of as _cfg_of
+
+    wcfg = _cfg_of(fn)
+    outs = []
+    for x in walk_no_nested(fn):
+        if isinstance(x, ast.Return) and isinstance(x.value, ast.Call):
+            for a in list(x.value.args) + [k.value for k in x.value.keywords]:
+                if isinstance(a, ast.Name):
+                    vals = [v for v in all_def_values(fn, a.id) if v is not None]
+                    if vals and all(isinstance(v, ast.Call) and (dotted(v.func) or "").split(".")[-1] in ("empty", "zeros", "full", "ones", "empty_like", "zeros_like") for v in vals):
+                        outs.append(a.id)
+    if len(outs) < 3:
+        raise AnalysisError(f"C01.R5: per-bin output arrays of the worker not recognised ({outs})")
+    hdr = [n_ for n_ in wcfg.nodes if n_.kind == "for" and n_.ast is lp]
+    if not hdr:
+        raise AnalysisError("C01.R5: loop header of the worker not found in its flow graph")
+    body_start = [wcfg.nodes[j] for j, lab in wcfg.succ[hdr[0].id] if lab == "n"]
+    for o in outs:
+        stores = [n_ for n_ in wcfg.nodes if n_.kind == "stmt" and isinstance(n_.ast, ast.Assign) and any(isinstance(t, ast.Subscript) and isinstance(t.value, ast.Name) and t.value.id == o for t in n_.ast.targets)]
+        skip = wcfg.reach(body_start, avoid=lambda x_: x_ in stores, labels={"n", "t", "f", "loop", "exh"})
+        if hdr[0].id in skip or not stores:
+            res.violation("C01.R5", worker, lp, f"an iteration of the bin loop can finish without storing into `{o}`: for that bin the counts / the sum of weights of a catalog is missing from the result although its tree holds objects", key_extra=f"bin-not-recorded-{o}")
+        else:
+            res.ok("C01.R5", res.site(worker, f"{o}[i]"), "stored on every path through the loop body")
     # side consistency: every assignment / dataclass construction keeps 1 with 1 and 2 with 2
     checked = 0
     for f in (worker, prog.func("PatchLinkage.get_patch_pairs"), prog.func("PatchLinkage.count_pairs")):
@@ -817,6 +843,59 @@ def rule_r7(prog, res) -> None:
     shared_rule(res, c10.rule_r1, "C10", "C10.R1", "C01.R7")
 
 
+def rule_r8(prog, res) -> None:
+    """separation weighting at any resolution: the fine grid on which the weights are evaluated spans ALL configured
+    scales (its end points are the global minimum and maximum of the angular limits, whatever their order), every
+    configured limit is an edge of the grid, and the grid is sorted and duplicate-free before it is used"""
+    from .. import symx
+
+    gb = prog.func("get_ang_bins")
+    res.touch(gb)
+    rng = gb.param_names()[0]
+    wparam = next((p for p in gb.param_names() if "scale" in p), None)
+    if wparam is None:
+        raise AnalysisError("C01.R8: get_ang_bins has no weight-scale parameter")
+    paths = [p for p in symx.explore(prog, gb, env={wparam: "SOME"}, inline=symx.inline_private_helpers(prog)) if p.outcome == "return"]
+    grids = [ev for p in paths for ev in p.calls() if ev.callee in ("linspace", "logspace", "geomspace")]
+    if not grids:
+        raise AnalysisError("C01.R8: the weighting grid of get_ang_bins was not found")
+
+    def extreme(e, which: str) -> bool:
+        """e is the global minimum / maximum of (a monotone function of) the whole range array"""
+        if isinstance(e, ast.Call):
+            nm = (dotted(e.func) or unparse(e.func)).split(".")[-1]
+            if nm in (which, "a" + which, "nan" + which):
+                if kwarg(e, "axis") is not None or len(e.args) > (0 if isinstance(e.func, ast.Attribute) and (dotted(e.func.value) or "").split(".")[0] not in ("np", "numpy") else 1):
+                    return False
+                src = e.func.value if isinstance(e.func, ast.Attribute) and (dotted(e.func.value) or "").split(".")[0] not in ("np", "numpy") else (e.args[0] if e.args else None)
+                return src is not None and symx.mentions(src, lambda y: isinstance(y, ast.Name) and y.id == rng) and not any(isinstance(y, ast.Subscript) for y in ast.walk(src))
+            if nm in ("log10", "log", "log2", "float") and e.args:
+                return extreme(e.args[0], which)
+        return False
+
+    for ev in grids:
+        a, b = (ev.expr.args + [None, None])[:2]
+        if a is not None and b is not None and extreme(a, "min") and extreme(b, "max"):
+            res.ok("C01.R8", res.site(gb, "grid range"), "the weighting grid runs from the global minimum to the global maximum of all angular limits")
+        else:
+            res.violation(
+                "C01.R8",
+                gb,
+                ev.node,
+                f"the weighting grid runs from `{unparse(a)[:40]}` to `{unparse(b)[:40]}`, which are not the minimum and maximum over all configured limits: for scales that are not given in ascending order "
+                "(or overlap) part of the range is covered by a few coarse bins only, the weights of the pairs there are evaluated at the wrong separation",
+                key_extra="weight-grid-range",
+            )
+    for p in paths:
+        v = p.value
+        ok_sorted = v is not None and any(isinstance(y, ast.Call) and (dotted(y.func) or "").split(".")[-1] in ("sort", "unique") for y in ast.walk(v))
+        ok_limits = v is not None and sum(1 for y in ast.walk(v) if isinstance(y, ast.Name) and y.id == rng) >= 2
+        if ok_sorted and ok_limits:
+            res.ok("C01.R8", res.site(gb, "edges"), "the configured limits are merged into the grid, which is sorted and made unique")
+        else:
+            res.violation("C01.R8", gb, p.node or gb.node, "the grid returned for weighted counting does not contain the configured limits as edges or is not sorted / unique", key_extra="weight-grid-edges")
+
+
 RULES = [
     ("C01.R1", rule_r1, QUICK),
     ("C01.R2", rule_r2, QUICK),
@@ -825,4 +904,5 @@ RULES = [
     ("C01.R5", rule_r5, QUICK),
     ("C01.R6", rule_r6, QUICK),
     ("C01.R7", rule_r7, QUICK),
+    ("C01.R8", rule_r8, QUICK),
 ]
